@@ -1,9 +1,11 @@
-from ipv import Unit, Ob
+import os, re
+from ipv import Unit, Ob, VERIF
+from factories import ext_models
 
 WRAPPERS = """seq_empty seq_begin seq_end seq_position it_deref it_arrow it_preinc it_predec it_postinc it_postdec it_eq it_ne
  product_size product_at sum_size sum_at expr_list_size scope_size scope_begin scope_end plist_size plist_begin plist_end
  class_scope class_members union_members namespace_members enum_scope block_body block_try template_parameters template_result
- parameter_default type_linkage transfer_linkage transfer_convention logo_eq logo_ne cc_eq cc_ne link_eq link_ne xfer_eq bspec_eq bqual_eq string_eq""".split()
+ parameter_default type_linkage transfer_linkage transfer_convention logo_eq logo_ne cc_eq cc_ne link_eq link_ne xfer_eq xfer_ne bspec_eq bspec_ne bqual_eq bqual_ne string_eq string_ne""".split()
 
 def build(tier, seed):
     names = {w: 'drv::' + w for w in WRAPPERS}
@@ -28,6 +30,14 @@ def build(tier, seed):
         Ob('C15.misc', u, H, 'h_misc', 'Template parameters/result = mapping; Parameter default_value = initializer; Type linkage = transfer linkage; Transfer linkage/convention = first/second', kind='K1', replay='C15'),
         Ob('C15.equality', u, H, 'h_equality', 'equality on logograms, conventions, linkages, transfers, basic specifiers/qualifiers, strings: equivalence, true exactly for equal spellings (three symbolic values)', kind='K1', flags=['--unwind', '4'], replay='C15'),
     ]
+    def gen(unit):
+        # primitives the helpers are not expected to call get the generic model of a foreign node's accessor (an arbitrary function of
+        # the receiver), so that a helper redefined through another primitive is decided against its definition instead of left undecided
+        text = open(os.path.join(VERIF, 'harness', H)).read()
+        mine = set(unit.resolve_text('@{virt:%s}' % k) for k in re.findall(r'@\{virt:(\w+)\}', text))
+        return text + '\n#ifndef NEWZ\n#define NEWZ(T) ((T*)__CPROVER_allocate(sizeof(T), 1))\n#endif\n' + ext_models(unit, skip=mine), [], []
+    for o in obs:
+        o.gen = gen
     meta = dict(sweep_family='C15', functions_under_contract=WRAPPERS, assumptions=[
         'the inline helpers are class-template members: proved at Sequence<Expr> (Decl, Parameter for scopes and parameter lists); other instantiations have the same body',
         'primitive accessors of foreign nodes are arbitrary functions of the receiver (finite look-up models in harness/C15/derived.c)'])
